@@ -65,6 +65,7 @@ PROPS = {
     "C13": node("C13", required=["send_ok"], variants=["epidemic", "spray", "binary_spray", "prophet", "dtlsr", "sensor-mule"]),
     "C14": node("C14", required=["send_ok", "same_ms_submission"]),
     "C15": node("C15", required=["send_ok", "status_report_judged"]),
+    "C19": node("C19", variants=["prophet"], required=["send_ok", "prophet_emission_judged", "prophet_vector_imported", "prophet_ageing_tick", "prophet_forwarding_judged"]),
     "C18": node("C18", variants=["spray", "binary_spray"], required=["send_ok", "spray_copy_given", "binary_spray_transmission_judged"]),
 }
 
@@ -96,6 +97,11 @@ MANIFEST_TEXT = {
     "C14": {"text": "Seeded groups of same-millisecond / zero-time / concurrent submissions through Core.SendBundle and the agent manager; oracle: pairwise distinct "
                     "wire IDs, one store record per submission, store key = wire ID.",
             "design_ref": "DESIGN.md §4 C14", "note": NODE_NOTE, "technique": DST},
+    "C19": {"text": "Seeded histories of encounters, ageing ticks on the fake clock and summary vectors from scripted peers (constants and values drawn from [0,1] incl. 0, 1, denormals); "
+                    "the node's vector is read from every metadata bundle it emits: range [0,1], per-key monotonicity between emissions (no ageing => no decrease; only ageing => no increase), "
+                    "and every algorithm-chosen transmission of a data bundle is checked against the peer's last advertised predictability and a reference value resynchronised at each emission. "
+                    "The 'never crashes under concurrent events' clause is only covered as far as a crash shows up as a dying worker process (no race-detector windows yet).",
+            "design_ref": "DESIGN.md §4 C19, App. A.5", "note": NODE_NOTE, "technique": DST},
     "C18": {"text": "Seeded histories (budgets 1..8, 0..6 peers, failures, retries, interleaved failure reports at the spray write-back hooks); oracles on the wire: vanilla spray never exceeds "
                     "L-1 successful transmissions and hands out all copies once faults stop; binary spray announces exactly half (rounded down) of what the sequence of outcomes says it holds, never "
                     "transmits a single copy to a non-destination, and a failure restores the count.",
